@@ -145,6 +145,34 @@ def arc_bbox_sampled(c):
     c.ensures('every-side-touched', abs(min(xs) - xmin) <= tol and abs(max(xs) - xmax) <= tol and abs(min(ys) - ymin) <= tol and abs(max(ys) - ymax) <= tol)
 
 
+@contract('C08', 'path.Arc.bbox', params=[{'_bounded_only': True}])
+def arc_bbox_near_full_turn_sampled(c):
+    """arcs that sweep almost a full turn and start next to theta = +-180 on a rotated ellipse:
+    the configuration in which the outermost candidate angles (k = +-3) carry an extreme"""
+    rx, ry = 0.5 + abs(c.real('rx')) % 4, 0.5 + abs(c.real('ry')) % 4
+    rot = (c.real('rot') % 1000) - 400
+    ctr = c.cplx('center')
+    e1, e2 = abs(c.real('e1')) % 40, abs(c.real('e2')) % 40
+    sgn = 1 if c.bool('sweep') else -1
+    a0 = math.copysign(180 - e1, c.real('side') or 1.0)
+    d = sgn * (360 - max(e2, 0.5))
+    w = cmath.exp(1j * math.radians(rot))
+
+    def pt(a):
+        return ctr + w * complex(rx * math.cos(math.radians(a)), ry * math.sin(math.radians(a)))
+    start, end = pt(a0), pt(a0 + d)
+    c.assume(abs(start - end) > 1e-6)
+    arc = c.new('path.Arc', start, complex(rx, ry), rot, True, sgn > 0, end)
+    xmin, xmax, ymin, ymax = arc.bbox()
+    N = 1440
+    pts = [arc.point(k / float(N)) for k in range(N + 1)]
+    sc = abs(arc.radius) + 1.0
+    xs, ys = [z.real for z in pts], [z.imag for z in pts]
+    c.ensures('contains-samples', min(xs) >= xmin - 1e-7 * sc and max(xs) <= xmax + 1e-7 * sc and min(ys) >= ymin - 1e-7 * sc and max(ys) <= ymax + 1e-7 * sc)
+    tol = 1e-4 * sc
+    c.ensures('every-side-touched', abs(min(xs) - xmin) <= tol and abs(max(xs) - xmax) <= tol and abs(min(ys) - ymin) <= tol and abs(max(ys) - ymax) <= tol)
+
+
 @contract('C15', 'path.Arc.unit_tangent', params=[{'_bounded_only': True}])
 def arc_tangent_and_curvature_sampled(c):
     arc, p = rand_arc(c)
